@@ -61,6 +61,33 @@ def Guard.isUpper (g : Guard) (p : CInt) (B : Nat) : Bool :=
       && decide ((B : Int) ≤ 2 ^ (t.bits - 1))
   | none => false
 
+/-- a signed conversion of a value in `[-2^(bits-1), 2^bits)` -/
+theorem wrap_signed (t : CInt) (hs : t.signed = true) (hb : 1 ≤ t.bits) (v : Int)
+    (h1 : -(2 ^ (t.bits - 1)) ≤ v) (h2 : v < 2 ^ t.bits) :
+    t.wrap v = if v < 2 ^ (t.bits - 1) then v else v - 2 ^ t.bits := by
+  have hm := two_pow_pos t.bits
+  have hh := two_pow_pos (t.bits - 1)
+  have e2 := two_pow_succ_pred t.bits hb
+  unfold CInt.wrap
+  simp only [hs, true_and]
+  by_cases hv : 0 ≤ v
+  · have hmod : v % 2 ^ t.bits = v := Int.emod_eq_of_lt hv h2
+    rw [hmod]
+    split <;> split <;> omega
+  · have hmod : v % 2 ^ t.bits = v + 2 ^ t.bits := by
+      have : (v + 2 ^ t.bits) % 2 ^ t.bits = v + 2 ^ t.bits := Int.emod_eq_of_lt (by omega) (by omega)
+      rw [← this, Int.add_emod_right]
+    rw [hmod]
+    split <;> split <;> omega
+
+/-- are `g1`, `g2` the pair `(T)p < 0`, `(T)p >= B` performed in one signed type `T` at least as wide as
+    the parameter type? -/
+def Guard.isLowerUpper (g1 g2 : Guard) (p : CInt) (B : Nat) : Bool :=
+  match g1.convs, g1.op, g2.upper? with
+  | [t], .lt, some (t2, c) => decide (g1.const = 0) && decide (t = t2) && t.signed && decide (1 ≤ p.bits)
+      && decide (p.bits ≤ t.bits) && decide (c = (B : Int)) && decide ((B : Int) ≤ 2 ^ (t.bits - 1))
+  | _, _, _ => false
+
 /-- the bound of the first upper-bound check -/
 def ToStrFn.bound (f : ToStrFn) : Nat :=
   match f.guards.filterMap (fun g => g.upper?) with
@@ -70,7 +97,8 @@ def ToStrFn.bound (f : ToStrFn) : Nat :=
 /-- finite, decidable side conditions under which the function meets its specification -/
 def ToStrFn.Sound (f : ToStrFn) (tbl : List (Option String)) (enums : List (String × Int)) : Bool :=
   f.shape == .guarded
-  && f.guards.any (fun g => g.isUpper f.paramTy f.bound)
+  && (f.guards.any (fun g => g.isUpper f.paramTy f.bound)
+      || f.guards.any (fun g1 => f.guards.any (fun g2 => g1.isLowerUpper g2 f.paramTy f.bound)))
   && (List.range f.bound).all (fun n => f.runV tbl (n : Int) == .ok (specName enums (n : Int)))
   && enums.all (fun e => decide (0 ≤ e.2) && decide (e.2 < (f.bound : Int)))
 
@@ -106,6 +134,48 @@ theorem Guard.isUpper_fires (g : Guard) (p : CInt) (B : Nat) (h : g.isUpper p B 
     next => exact absurd hup (by simp)
   next => exact absurd h (by simp)
 
+theorem Guard.upper_fires_signed (g : Guard) (t : CInt) (c : Int) (hup : g.upper? = some (t, c)) (v : Int) :
+    g.fires v = decide (t.wrap v ≥ c) := by
+  unfold Guard.upper? at hup
+  unfold Guard.fires
+  split at hup
+  next t' hc' ho =>
+    simp only [Option.some.injEq, Prod.mk.injEq] at hup
+    obtain ⟨rfl, rfl⟩ := hup
+    rw [hc', ho]
+    rfl
+  next t' hc' ho =>
+    simp only [Option.some.injEq, Prod.mk.injEq] at hup
+    obtain ⟨rfl, rfl⟩ := hup
+    rw [hc', ho]
+    simp only [List.foldl_cons, List.foldl_nil, Cmp.eval]
+    by_cases h : t'.wrap v > g.const <;> simp [h] <;> omega
+  next => exact absurd hup (by simp)
+
+theorem Guard.isLowerUpper_fires (g1 g2 : Guard) (p : CInt) (B : Nat) (h : g1.isLowerUpper g2 p B = true) (i : Int)
+    (hv : ¬ (0 ≤ p.wrap i ∧ p.wrap i < B)) : g1.fires (p.wrap i) = true ∨ g2.fires (p.wrap i) = true := by
+  unfold Guard.isLowerUpper at h
+  split at h
+  next t t2 c hc1 ho1 hup =>
+    simp only [Bool.and_eq_true, decide_eq_true_eq] at h
+    obtain ⟨⟨⟨⟨⟨⟨h0, rfl⟩, hs⟩, hp1⟩, hpt⟩, hc⟩, hB⟩ := h
+    have hr := wrap_range p hp1 i
+    have hm1 := two_pow_mono (a := p.bits - 1) (b := t.bits - 1) (by omega)
+    have hm2 := two_pow_mono hpt
+    have ht1 : 1 ≤ t.bits := by omega
+    have e2 := two_pow_succ_pred t.bits ht1
+    have hh := two_pow_pos (t.bits - 1)
+    have hw := wrap_signed t hs ht1 (p.wrap i) (by omega) (by omega)
+    have f2 := g2.upper_fires_signed t c hup (p.wrap i)
+    have f1 : g1.fires (p.wrap i) = decide (t.wrap (p.wrap i) < 0) := by
+      unfold Guard.fires
+      rw [hc1, ho1, h0]
+      rfl
+    rw [f1, f2, hw]
+    simp only [decide_eq_true_eq]
+    split <;> omega
+  next => exact absurd h (by simp)
+
 theorem specName_none_of_bound (enums : List (String × Int)) (B : Int)
     (h : enums.all (fun e => decide (0 ≤ e.2) && decide (e.2 < B)) = true) (v : Int)
     (hv : ¬ (0 ≤ v ∧ v < B)) : specName enums v = none := by
@@ -126,8 +196,17 @@ theorem ToStrFn.run_spec (f : ToStrFn) (tbl : List (Option String)) (enums : Lis
   unfold ToStrFn.Sound at h
   simp only [Bool.and_eq_true] at h
   obtain ⟨⟨⟨hs, hw⟩, hfin⟩, hen⟩ := h
-  obtain ⟨g, hg, hup⟩ := List.any_eq_true.mp hw
-  have hf := g.isUpper_fires f.paramTy f.bound hup i
+  have hcover : ¬ (0 ≤ f.paramTy.wrap i ∧ f.paramTy.wrap i < f.bound) →
+      f.guards.any (·.fires (f.paramTy.wrap i)) = true := by
+    intro hv
+    rcases (Bool.or_eq_true _ _).mp hw with hw | hw
+    · obtain ⟨g, hg, hup⟩ := List.any_eq_true.mp hw
+      exact List.any_eq_true.mpr ⟨g, hg, (g.isUpper_fires f.paramTy f.bound hup i).mpr hv⟩
+    · obtain ⟨g1, hg1, hw2⟩ := List.any_eq_true.mp hw
+      obtain ⟨g2, hg2, hp⟩ := List.any_eq_true.mp hw2
+      rcases g1.isLowerUpper_fires g2 f.paramTy f.bound hp i hv with h | h
+      · exact List.any_eq_true.mpr ⟨g1, hg1, h⟩
+      · exact List.any_eq_true.mpr ⟨g2, hg2, h⟩
   unfold ToStrFn.run
   by_cases hv : 0 ≤ f.paramTy.wrap i ∧ f.paramTy.wrap i < f.bound
   · have hn := List.all_eq_true.mp hfin (f.paramTy.wrap i).toNat (by
@@ -135,9 +214,7 @@ theorem ToStrFn.run_spec (f : ToStrFn) (tbl : List (Option String)) (enums : Lis
     have : ((f.paramTy.wrap i).toNat : Int) = f.paramTy.wrap i := by omega
     rw [this] at hn
     exact eq_of_beq hn
-  · have hfire : g.fires (f.paramTy.wrap i) = true := hf.mpr hv
-    have hany : f.guards.any (·.fires (f.paramTy.wrap i)) = true :=
-      List.any_eq_true.mpr ⟨g, hg, hfire⟩
+  · have hany := hcover hv
     rw [specName_none_of_bound enums f.bound hen _ hv]
     unfold ToStrFn.runV
     have hs' : f.shape = .guarded := eq_of_beq hs
